@@ -31,7 +31,7 @@ ASSUMPTIONS = [
 ]
 REQUIRED = {"all": ["salted_objects", "renders_checked", "valid_updates", "rejected_missing_key", "rejected_bad_colour", "rejected_non_dict",
                     "rejected_padded_missing_key", "multi_object_histories", "lengths_10k_plus_1", "render_after_reject", "rejected_empty_mapping",
-                    "caller_edits_after_accept", "second_handle_updates", "long_update_histories"]}
+                    "caller_edits_after_accept", "second_handle_updates", "long_update_histories", "live_palette_dictionaries_handed_back"]}
 NHIST = {"quick": 1000, "thorough": 8000}
 COLOURS = ['aqua', 'black', 'blue', 'fuchsia', 'gray', 'green', 'lime', 'maroon', 'navy', 'olive', 'orange', 'purple',
            'red', 'silver', 'teal', 'white', 'yellow']
@@ -138,7 +138,7 @@ def judge(case, rep, S):
         k = rng.randrange(nobj)
         obj, model = objs[k], models[k]
         kind = rng.choice(["valid", "valid", "valid", "missing", "bad_colour", "bad_value_type", "non_dict", "padded_missing",
-                           "valid_padded", "empty", "valid_then_caller_edits"])
+                           "valid_padded", "empty", "valid_then_caller_edits", "live_map_handed_back"])
         d = {a: rng.choice(COLOURS) for a in M.AA}
         order = list(M.AA)
         rng.shuffle(order)
@@ -169,6 +169,19 @@ def judge(case, rep, S):
             if rng.random() < 0.6:
                 # entries for keys that are not amino acids take no part: whatever their values are
                 d[rng.choice(["X", "B", "name", "*"])] = rng.choice(["pink", "#aa00aa", "my scheme", None, 3])
+        elif kind == "live_map_handed_back":
+            # there is no getter for the palette: users read the backend attribute, perhaps change an entry, and hand the very
+            # same dictionary back - to the object it came from or to another one
+            src = rng.randrange(nobj)
+            d = objs[src].SeqObj.aminoAcidColorMap
+            if not isinstance(d, dict) or set(d) != set(M.AA):
+                rep.viol("palette_state", "the backend palette attribute is %r" % (d,))
+                return
+            if rng.random() < 0.6:
+                a_ = rng.choice(list(M.AA))
+                d[a_] = rng.choice(COLOURS)
+                models[src][a_] = d[a_]
+            rep.cnt("live_palette_dictionaries_handed_back")
         elif kind == "empty":
             import collections
             d = rng.choice([{}, collections.OrderedDict()])
@@ -189,7 +202,7 @@ def judge(case, rep, S):
         if accepted:
             rep.cnt("valid_updates")
             for a in M.AA:
-                model[a] = d[a]
+                model[a] = models[src][a] if kind == "live_map_handed_back" else d[a]
             if kind == "valid_then_caller_edits":
                 # the dictionary belongs to the caller: editing it afterwards is not a palette update
                 rep.cnt("caller_edits_after_accept")
